@@ -26,4 +26,55 @@ for t, n in ints + flts:
     if (t, n) in ints:
         job("rt_%s_cx_ped" % t, "C01 C17", u)
         job("cap_%s_cw" % t, "C06", u)
+# --- per-function contracts on the real scalar codec functions (full domain, loop-free): Prefix / Size / Match
+# against the integer-class rules of docs/format.md (constants parsed from the document each run).
+uints = [("unsigned char", "u8", 1, "unsigned char"), ("unsigned short", "u16", 2, "unsigned short"), ("unsigned int", "u32", 4, "unsigned int"), ("unsigned long", "u64", 8, "unsigned long")]
+sints = [("signed char", "i8", 1, "signed char"), ("short", "i16", 2, "short"), ("int", "i32", 4, "int"), ("long", "i64", 8, "long")]
+def contract(key, clauses, name, props):
+    out.append("contract %s\n%s" % (key, "".join("  %s\n" % c for c in clauses)))
+    out.append("job cs_fn_%s\n  props %s\n  enforce %s\n" % (name, props, key))
+for ct, t, b, p in uints:
+    contract("nop::Encoding<%s>::Prefix(%s)" % (ct, p), ["assigns", "ensures RET == VT_PREFIX_UINT((unsigned long)value)"], "prefix_" + t, "C03")
+    contract("nop::Encoding<%s>::Size(%s)" % (ct, p), ["assigns", "ensures RET == VT_LEN_UINT((unsigned long)value)"], "size_" + t, "C03 C06")
+    contract("nop::Encoding<%s>::Match(nop::EncodingByte)" % ct, ["assigns", "ensures RET == (VT_MATCH_UINT(prefix, %d) ? 1 : 0)" % b], "match_" + t, "C04")
+for ct, t, b, p in sints:
+    contract("nop::Encoding<%s>::Prefix(%s)" % (ct, p), ["assigns", "ensures RET == VT_PREFIX_INT((long)value)"], "prefix_" + t, "C03")
+    contract("nop::Encoding<%s>::Size(%s)" % (ct, p), ["assigns", "ensures RET == VT_LEN_INT((long)value)"], "size_" + t, "C03 C06")
+    contract("nop::Encoding<%s>::Match(nop::EncodingByte)" % ct, ["assigns", "ensures RET == (VT_MATCH_INT(prefix, %d) ? 1 : 0)" % b], "match_" + t, "C04")
+contract("nop::Encoding<char>::Prefix(char)", ["assigns", "ensures RET == VT_PREFIX_UINT((unsigned long)(unsigned char)value)"], "prefix_char", "C03")
+contract("nop::Encoding<char>::Match(nop::EncodingByte)", ["assigns", "ensures RET == (VT_MATCH_UINT(prefix, 1) ? 1 : 0)"], "match_char", "C04")
+contract("nop::Encoding<bool>::Prefix(bool)", ["assigns", "ensures RET == (value ? FMT_TRUE : FMT_FALSE)"], "prefix_bool", "C03")
+contract("nop::Encoding<bool>::Match(nop::EncodingByte)", ["assigns", "ensures RET == ((prefix == FMT_TRUE || prefix == FMT_FALSE) ? 1 : 0)"], "match_bool", "C04")
+contract("nop::Encoding<float>::Match(nop::EncodingByte)", ["assigns", "ensures RET == (prefix == FMT_F32 ? 1 : 0)"], "match_f32", "C04")
+contract("nop::Encoding<double>::Match(nop::EncodingByte)", ["assigns", "ensures RET == (prefix == FMT_F64 ? 1 : 0)"], "match_f64", "C04")
+contract("nop::BaseEncodingSize(nop::EncodingByte)", ["assigns",
+  "ensures (prefix <= FMT_POS_MAX || prefix >= FMT_NEG_MIN) ==> RET == 1",
+  "ensures (prefix == FMT_U8 || prefix == FMT_I8) ==> RET == 2",
+  "ensures (prefix == FMT_U16 || prefix == FMT_I16) ==> RET == 3",
+  "ensures (prefix == FMT_U32 || prefix == FMT_I32 || prefix == FMT_F32) ==> RET == 5",
+  "ensures (prefix == FMT_U64 || prefix == FMT_I64 || prefix == FMT_F64) ==> RET == 9",
+  "ensures (prefix >= FMT_RESERVED_MIN && prefix <= FMT_RESERVED_MAX) ==> RET == 0",
+  "ensures (prefix >= FMT_TAB && prefix <= FMT_EXT) ==> RET == 1"], "base_encoding_size", "C03 C06")
+# --- EncodingIO<Int>::Write over the reference sink: the bytes appended are the documented encoding (prefix, then the
+# little-endian payload of the class the value falls in), position advances by its length, any sink error is returned verbatim.
+out.append("c #define VT_MAXLEN (1UL << 40)")
+out.append("c #define SW_PRE(w) (FRESH(w) && (w)->failed == 0 && (w)->fail_code >= 1 && (w)->fail_code <= 18 && (w)->cap <= VT_MAXLEN && (w)->pos <= (w)->cap && FRESHN((w)->dst, (w)->cap))")
+def write_contract(ct, t, signed):
+    key = "nop::EncodingIO<%s>::Write<vt::SpecWriter>" % ct
+    cast = "(long)(*value)" if signed else "(unsigned long)(*value)"
+    ln = "VT_LEN_INT(%s)" % cast if signed else "VT_LEN_UINT(%s)" % cast
+    pf = "VT_PREFIX_INT(%s)" % cast if signed else "VT_PREFIX_UINT(%s)" % cast
+    cl = ["requires SW_PRE(writer) && FRESH(value)",
+          "assigns __CPROVER_object_whole(writer->dst), writer->pos, writer->failed, writer->calls, writer->writes, writer->after_fail",
+          "ensures ERR(RET) == 0 ==> (writer->failed == 0 && writer->pos == OLD(writer->pos) + %s)" % ln,
+          "ensures ERR(RET) == 0 ==> writer->dst[OLD(writer->pos)] == %s" % pf,
+          "ensures (ERR(RET) == 0 && vt_k < %s - 1) ==> writer->dst[OLD(writer->pos) + 1 + vt_k] == (unsigned char)(((unsigned long)%s) >> (8 * (vt_k & 7)))" % (ln, cast),
+          "ensures ERR(RET) != 0 ==> (writer->failed == ERR(RET) && writer->after_fail == OLD(writer->after_fail))",
+          "ensures (OLD(writer->cap) - OLD(writer->pos) >= %s && OLD(writer->fail_at) - OLD(writer->calls) >= 2) ==> ERR(RET) == 0" % ln]
+    out.append("contract %s\n%s" % (key, "".join("  %s\n" % c for c in cl)))
+    out.append("job cs_fn_write_%s\n  props C03 C10\n  pre vt_k = nondet_ulong();\n  enforce %s\n" % (t, key))
+for ct, t, b, p in uints:
+    write_contract(ct, t, False)
+for ct, t, b, p in sints:
+    write_contract(ct, t, True)
 print("\n".join(out))
